@@ -243,6 +243,20 @@ class ScriptGen:
             return self.g_usercall_num(D, depth - 1, counters)
         if k == 7:
             a = self.pick(arrs, "ba")
+            two = self.arrs(D, 2)
+            if two and t.chance(0.35, "matmul"):
+                x, y = Var(self.pick(two, "mma")), Var(self.pick(two, "mmb"))
+                ac, bc = [(2, 1), (1, 2)][t.draw(2, "mmshape")]
+                form = t.draw(4, "mmform") if F.kwargs else 0
+                if form == 0:
+                    mm = Call("<builtin>matmul", [x, y, Const(ac), Const(bc)])
+                elif form == 1:
+                    mm = Call("<builtin>matmul", [x, y], [("a_cols", Const(ac)), ("b_cols", Const(bc))])
+                elif form == 2:
+                    mm = Call("<builtin>matmul", [x, y], [("b_cols", Const(bc)), ("a_cols", Const(ac))])
+                else:
+                    mm = Call("<builtin>matmul", [x], [("b_cols", Const(bc)), ("b", y), ("a_cols", Const(ac))])
+                return Call("<builtin>norm_1", [mm])
             fn = self.pick(["<builtin>len", "<builtin>norm_inf", "<builtin>norm_1", "<builtin>norm_2"], "bfn")
             if F.kwargs and t.chance(0.3, "bkw"):
                 return Call(fn, [], [("x", Var(a))])
@@ -258,6 +272,10 @@ class ScriptGen:
         return e
 
     def g_elem(self, D, counters):
+        self._D = D
+        return self._g_elem(D, counters)
+
+    def _g_elem(self, D, counters):
         """a[idx] with idx provably in range: constant, or loop counter (+const)
         when the loop range guarantees it (counter ranges are recorded)."""
         arrs = self.arrs(D)
@@ -274,6 +292,10 @@ class ScriptGen:
             if off == 0:
                 return Sub(a, Var(c))
             return Sub(a, Bin("+", Var(c), Const(off)))
+        bvs = [b for b in self.vars_of(self._D, lambda ty: ty == "bnd") if 0 <= self.bnd_val.get(b, -1) < n] \
+            if getattr(self, "_D", None) is not None else []
+        if bvs and self.tape.chance(0.3, "eidxvar"):
+            return Sub(a, Var(self.pick(bvs, "eidxv")))
         return Sub(a, Const(self.tape.draw(n, "eidx")))
 
     def g_usercall_num(self, D, depth, counters):
@@ -311,8 +333,12 @@ class ScriptGen:
              0.5 if F.builtins else 0]
         k = t.weighted(w, "bool")
         if k == 0:
-            return Cmp(self.pick(CMP_OPS, "cmp"), self.g_num(D, max(depth - 1, 0), counters, allow_calls),
-                       self.g_num(D, max(depth - 1, 0), counters, allow_calls))
+            a = self.g_num(D, max(depth - 1, 0), counters, allow_calls)
+            if F.np_consts and t.chance(0.12, "infc"):
+                b = Const([float("inf"), float("-inf")][t.draw(2, "infsign")])
+            else:
+                b = self.g_num(D, max(depth - 1, 0), counters, allow_calls)
+            return Cmp(self.pick(CMP_OPS, "cmp"), a, b)
         if k == 1:
             return Var(self.pick(bs, "bv"))
         if k == 2:
@@ -394,6 +420,8 @@ class ScriptGen:
         t = self.tape
         F = self.F
         nl = 1 + (1 if t.chance(0.25, "nest2") else 0)
+        if nl == 2 and t.chance(0.25, "nest3"):
+            nl = 3
         loops, ctrs = [], []
         for li in range(nl):
             c = COUNTERS[li] if not t.chance(0.2, "ctrname") else COUNTERS[(li + 1) % 3]
@@ -507,6 +535,7 @@ class ScriptGen:
                 return None
             create = ("call", (a,), Call("<builtin>array", [Const(n)]), self.mode())
             self.counter_range["i"] = (0, n)
+            D.discard(a)      # freshly created storage is uninitialised: not readable yet
             init_e = self.g_num(D, 1, counters=("i",))
             init = ("assign", a, Var("i"), init_e, [("i", Const(0), Const(n))], self.mode())
             D.add(a)
@@ -525,6 +554,11 @@ class ScriptGen:
                 e = self.g_num(D, 1, counters=ctrs)
                 return ("assign", a, Var(c0), e, loops, self.mode())
             idx = Const(t.draw(n, "sidx"))
+            bvs = [b for b in self.vars_of(D, lambda ty: ty == "bnd") if 0 <= self.bnd_val.get(b, -1) < n]
+            if bvs and t.chance(0.6, "sidxvar"):
+                idx = Var(self.pick(bvs, "sidxv"))
+                if self.bnd_val[idx.name] + 1 < n and t.chance(0.3, "sidxplus"):
+                    idx = Bin("+", idx, Const(1))
             e = self.g_num(D, self.max_depth)
             if isinstance(e, Call):
                 # the builder accepts a bare call only with plain-variable assignees
@@ -593,13 +627,20 @@ class ScriptGen:
                 e = Var(self.pick(self.arrs(D), "ya"))
                 if t.chance(0.5, "ycopy"):
                     e = Bin("+", e, e)
-            te = [Var("<t>"), Bin("+", Var("<t>"), Var("<dt>")), Const(0)][t.weighted([3, 2, 1], "ytime")]
+            tvars = [v for v in self.nums(D) if not v.startswith("<")]
+            te = [Var("<t>"), Bin("+", Var("<t>"), Var("<dt>")), Const(0),
+                  Var(tvars[t.draw(len(tvars), "ytv")]) if tvars else Var("<t>")][
+                      t.weighted([3, 2, 1, 2 if tvars else 0], "ytime")]
             return ("yield", e, self.pick(COMPONENTS, "comp"), te, self.pick(TIME_IDS, "tid"), self.mode())
         if k == 7:
-            h = "$f%d" % self.fresh_n
-            self.fresh_n += 1
-            self.fresh_handles.append(h)
-            return ("fresh", h, self.pick(FRESH_PREFIXES, "fp"), bool(t.draw(2, "fvapi")))
+            out = []
+            for _ in range(1 + t.draw(3, "nfresh")):
+                h = "$f%d" % self.fresh_n
+                self.fresh_n += 1
+                self.fresh_handles.append(h)
+                out.append(("fresh", h, FRESH_PREFIXES[t.weighted([4, 1, 1, 1, 1, 3], "fp")],
+                            bool(t.draw(2, "fvapi"))))
+            return out
         if k == 8:
             opts = []
             if F.fail:
@@ -736,6 +777,9 @@ class Applied:
         self.builders = {}
         self.fresh = {}           # handle -> actual name
         self.fresh_log = []       # (phase, n_statements_before, actual name)
+        self.stack = []           # enclosing (flag variable, negated) while applying
+        self.guards = {}          # (phase, statement index) -> expected [(flag, negated), ...]
+        self.flags = {}           # phase -> list of flag variable names created by if_
 
     def nm(self, name):
         if name.startswith("$"):
@@ -750,6 +794,35 @@ def _rend(e, ap, mode):
 def apply_ops(cb, ops, ap, phase_name):
     from pymbolic.primitives import Subscript, Variable
     for op in ops:
+        k = op[0]
+        n0 = len(cb.statements)
+        if k != "if":
+            _apply_one(cb, op, ap, phase_name)
+            for idx in range(n0, len(cb.statements)):
+                ap.guards[(phase_name, idx)] = list(ap.stack)
+            continue
+        _, form, then, else_ = op
+        if form[0] == "1":
+            cm = cb.if_(_rend(form[1], ap, form[2]))
+        else:
+            cm = cb.if_(_rend(form[1], ap, form[4]), form[2], _rend(form[3], ap, form[5]))
+        with cm:
+            ap.guards[(phase_name, n0)] = list(ap.stack)
+            flag = cb.statements[n0].assignee if len(cb.statements) > n0 else None
+            ap.flags.setdefault(phase_name, []).append(flag)
+            ap.stack.append((flag, False))
+            apply_ops(cb, then, ap, phase_name)
+            ap.stack.pop()
+        if else_ is not None:
+            with cb.else_():
+                ap.stack.append((flag, True))
+                apply_ops(cb, else_, ap, phase_name)
+                ap.stack.pop()
+
+
+def _apply_one(cb, op, ap, phase_name):
+    from pymbolic.primitives import Subscript, Variable
+    if True:
         k = op[0]
         if k == "assign":
             _, tgt, sub, e, loops, mode = op
@@ -771,17 +844,6 @@ def apply_ops(cb, ops, ap, phase_name):
             else:
                 lhs = tuple(Variable(n) for n in names) if len(names) != 1 else Variable(names[0])
             cb.assign(lhs, _rend(e, ap, mode))
-        elif k == "if":
-            _, form, then, else_ = op
-            if form[0] == "1":
-                cm = cb.if_(_rend(form[1], ap, form[2]))
-            else:
-                cm = cb.if_(_rend(form[1], ap, form[4]), form[2], _rend(form[3], ap, form[5]))
-            with cm:
-                apply_ops(cb, then, ap, phase_name)
-            if else_ is not None:
-                with cb.else_():
-                    apply_ops(cb, else_, ap, phase_name)
         elif k == "yield":
             _, e, comp, te, tid, mode = op
             cb.yield_state(_rend(e, ap, mode), comp, te.pym(ap.nm), tid)
